@@ -37,6 +37,12 @@ def run(ck, prog, ctx):
     ck.rule("INDEX", "a map field whose values are the keys of another map field of the same struct (a name -> id index) is written only where a record is inserted into that other map")
     from engines import check_secondary_index
     check_secondary_index(ck, "INDEX", prog, r"^ontology::(builder::Builder|Ontology)$")
+    # the public ways of adding a term end in the arena: Builder::new_term / add_term reach Arena::insert on every path
+    from engines import check_required_steps as _crs10
+    for nb10 in prog.find(r"^ontology::builder::Builder::<.*>::new_term$"):
+        _crs10(ck, "DOM", prog, nb10, [("store the term in the arena", lambda t_: (t_.callee.res or "").endswith("::add_term") or (t_.callee.res or "").endswith("Arena::insert"))])
+    for nb10 in prog.find(r"^ontology::builder::Builder::<.*>::add_term$"):
+        _crs10(ck, "DOM", prog, nb10, [("store the term in the arena", lambda t_: (t_.callee.res or "").endswith("Arena::insert"))])
     ck.rule("TABLE", "slot-0 constants agree (DESIGN 3.12)")
     ck.rule("DOM", "must-pass-through on zero-test edges (DESIGN 3.6)")
     ck.rule("ROLE", "role provenance at contract sites (DESIGN 3.4)")
